@@ -1330,6 +1330,7 @@ class ElementListCouplingMixin(ElementList[T], t.Generic[T]):
             acc.insert(self, len(self), newobj)
             super().insert(len(self), newobj)
         except:
+            self._model._loader.idcache_remove(newobj._element)
             self._parent._element.remove(newobj._element)
             raise
         return newobj
@@ -1358,6 +1359,7 @@ class ElementListCouplingMixin(ElementList[T], t.Generic[T]):
             acc.insert(self, len(self), newobj)
             super().insert(len(self), newobj)
         except:
+            self._model._loader.idcache_remove(newobj._element)
             self._parent._element.remove(newobj._element)
             raise
         return newobj
